@@ -12,6 +12,8 @@ import traceback
 VERIF = os.path.dirname(os.path.dirname(os.path.abspath(__file__)))
 sys.path.insert(0, VERIF)
 
+WORK_ITEM_BUDGET_S = 420
+
 CONTRACT_MODULES = ['extent', 'field', 'util', 'helper', 'fourier', 'propagate', 'wavefront', 'plane',
                     'ptype', 'zernike', 'detector', 'radiometry', 'shape', 'segmented', 'wfe', 'convolvable']
 
@@ -78,36 +80,61 @@ def work_item(args):
             out['inlined'] = sorted(set(out['inlined']) | set(pr.inlined))
             out['modelled'] = sorted(set(out['modelled']) | set(pr.modelled))
             for ob in pr.obligations:
-                v = prove.discharge(ob, timeout_ms)
+                if time.time() - t0 > WORK_ITEM_BUDGET_S:
+                    out['obligations'].append({'name': ob.name, 'status': 'undecided', 'solver': '-', 'time_s': 0,
+                                               'kind': ob.kind, 'reason': 'work item time budget (%d s) exhausted' % WORK_ITEM_BUDGET_S})
+                    continue
+                wit = ob.info.get('witness') or {}
+                listed = [k for k in wit if _listed(known, ob.name, k)]
+                rec = None
+                if listed:
+                    # known findings: quick attempt on the obligation as it stands; otherwise prove it
+                    # on the complement of the listed witness predicates
+                    import z3
+                    from lvc.interp import Obligation
+                    tr = ''.join('T' if t else 'F' for t in pr.trace)
+                    v1 = prove.discharge(ob, timeout_ms, quick=True)
+                    if v1.status == 'discharged':
+                        out['obligations'].append({'name': ob.name, 'status': 'discharged', 'solver': v1.solver,
+                                                   'time_s': round(v1.time_s, 4), 'kind': ob.kind, 'trace': tr})
+                        continue
+                    hyp = [z3.Not(wit[k]) for k in listed]
+                    ob2 = Obligation(ob.name, ob.pc + hyp, ob.formula, ob.kind, ob.info)
+                    v2 = prove.discharge(ob2, timeout_ms)
+                    if v2.status == 'undecided':        # budgets must not flip verdicts on a busy machine
+                        v2 = prove.discharge(ob2, timeout_ms * 4)
+                    if v2.status == 'discharged':
+                        rec = {'name': ob.name, 'status': 'known', 'solver': v2.solver,
+                               'time_s': round(v1.time_s + v2.time_s, 4), 'kind': ob.kind, 'trace': tr, 'witnesses': []}
+                        for k in listed:
+                            sw = z3.Solver()
+                            sw.set('timeout', 2000)
+                            for q_ in ob.pc:
+                                sw.add(q_)
+                            sw.add(wit[k])
+                            if sw.check() != z3.unsat:      # the witness can occur on this path
+                                rec['witnesses'].append(k)
+                        if not rec['witnesses']:
+                            rec['status'] = 'discharged'
+                        out['obligations'].append(rec)
+                        continue
+                    v = v2
+                    ob = ob2
+                else:
+                    v = prove.discharge(ob, timeout_ms)
+                    if v.status == 'undecided':
+                        v = prove.discharge(ob, timeout_ms * 4)
                 rec = {'name': ob.name, 'status': v.status, 'solver': v.solver, 'time_s': round(v.time_s, 4),
                        'kind': ob.kind, 'trace': ''.join('T' if t else 'F' for t in pr.trace)}
                 if v.status == 'failed':
                     rec['model'] = v.model
                     rec['info'] = {k: str(x) for k, x in ob.info.items() if k != 'witness'}
-                    # known findings: re-prove on the complement of the listed witness predicates
-                    wit = ob.info.get('witness') or {}
-                    listed = [k for k in wit if _listed(known, ob.name, k)]
-                    if listed:
-                        import z3
-                        from lvc.interp import Obligation
-                        hyp = [z3.Not(wit[k]) for k in listed]
-                        ob2 = Obligation(ob.name, ob.pc + hyp, ob.formula, ob.kind, ob.info)
-                        v2 = prove.discharge(ob2, timeout_ms)
-                        rec['complement'] = v2.status
-                        rec['complement_time_s'] = round(v2.time_s, 4)
-                        if v2.status == 'discharged':
-                            rec['status'] = 'known'
-                            rec['witnesses'] = []
-                            for k in listed:
-                                ob3 = Obligation(ob.name, ob.pc + [wit[k]], ob.formula, ob.kind, ob.info)
-                                v3 = prove.discharge(ob3, timeout_ms)
-                                if v3.status == 'failed':
-                                    rec['witnesses'].append(k)
-                        elif v2.status == 'failed':
-                            rec['model'] = v2.model
-                    if rec['status'] == 'failed' and ob.name in seen:
+                    nfail = sum(1 for o in out['obligations'] if o['status'] == 'failed')
+                    if nfail >= 3:
+                        prove.SMALL_MODELS = False
+                    if ob.name in seen or nfail >= 6:
                         rec['replay'] = {'status': 'skipped', 'detail': 'same obligation already replayed on another path'}
-                    elif rec['status'] == 'failed':
+                    else:
                         seen.add(ob.name)
                         try:
                             from lvc import replay
@@ -129,7 +156,8 @@ def _listed(known, obname, wit):
     for (o, w) in known:
         if w != wit:
             continue
-        if o == obname or (o.endswith('*') and obname.startswith(o[:-1])):
+        import fnmatch
+        if o == obname or fnmatch.fnmatchcase(obname, o):
             return True
     return False
 
@@ -261,8 +289,7 @@ def run_property(prop_id, tier='quick', seed=0, jobs=None):
     os.makedirs(os.path.join(VERIF, 'replays', prop_id), exist_ok=True)
     for (obname, wit), n in sorted(known_seen.items()):
         what = [f['what'] for f in kf['findings'] if (f['property'] == prop_id or prop_id in f.get('also_seen_in', [])) and f['witness'] == wit
-                and (f['obligation'] == obname or (f['obligation'].endswith('*')
-                                                    and obname.startswith(f['obligation'][:-1])))]
+                and _listed({(f['obligation'], wit)}, obname, wit)]
         lines.append('KNOWN-FINDING: property=%s %s [%s] %s' % (prop_id, obname, wit, what[0] if what else ''))
     reported = set()
     for fn, ob in failed:
